@@ -27,7 +27,7 @@ RULE = (
 )
 ASSUMPTIONS = ["default ignore patterns only", "no hash collisions"]
 BUDGET = {"quick": (300, 4), "thorough": (80000, 16)}
-REQUIRED = ["flat", "root_level_mutation", "deep_mutation", "multi_format", "nested", "-n_generation", "sf_generation", "unchanged", "differing_nested_formats"]
+REQUIRED = ["flat", "root_level_mutation", "deep_mutation", "multi_format", "nested", "-n_generation", "sf_generation", "unchanged", "differing_nested_formats", "root_spelled_slash", "root_spelled_dotrel"]
 
 P1 = {
     "kinds": ["create"] * 6 + ["create_sf"] * 2 + ["put_new"],
@@ -80,6 +80,7 @@ def _scn(draw):
     scn["mutation"] = mut
     roots = [""] + [r for r in m.roots if r]
     scn["target"] = draw(st.sampled_from(roots + [""] * (2 * len(roots))))
+    scn["form"] = draw(st.sampled_from(["abs", "abs", "slash", "dotrel"]))  # how the root is spelled on the command line
     return scn
 
 
@@ -146,7 +147,17 @@ def run_case(scn, ctx):
                     feats.add("root_level_mutation")
                 else:
                     feats.add("deep_mutation")
-        res = w.verify(target, flags=["-dh"])
+        form = scn.get("form", "abs")
+        if form == "slash":
+            res = w.verify(target + "/", flags=["-dh"])
+        elif form == "dotrel":
+            import os as _os
+
+            res = w.run("verify", ["./" + _os.path.basename(w.abs(target)), "-dh"], cwd=_os.path.dirname(w.abs(target)))
+        else:
+            res = w.verify(target, flags=["-dh"])
+        if form != "abs":
+            feats.add("root_spelled_" + form)
         require(res.exc is None, "no-internal-error", "verify -dh aborted: " + res.brief(), res)
         if applied and target_has_dirhashes and not edited_after_first_seal:
             # (a tree edited between generations may, after the mutation, equal an earlier generation again)
